@@ -15,7 +15,6 @@ import (
 	"fmt"
 	"os"
 	"os/exec"
-	"reflect"
 	"strconv"
 	"strings"
 	"sync"
@@ -61,24 +60,15 @@ func customDecoration(h, v, x string) decoration.Decoration {
 	return d
 }
 
-// complete (every exported string field non-empty, as Populate guarantees) or the boxless decoration
-func decUsable(d decoration.Decoration) bool {
-	if d == decoration.NoBox() {
-		return true
+// A decoration written out field by field, the way an application that does
+// not call Populate would: every field the renderer uses is set, the
+// "unused-for-render" templates (Horizontal, Vertical, TopDown, VBorder) are not.
+func explicitDecoration() decoration.Decoration {
+	return decoration.Decoration{
+		CrossPiece: "x", HOuter: "=", HRule: ".", VHeader: "H", VBodyBorder: "B", VBodyInner: "i",
+		TopLeft: "1", TopRight: "2", BottomLeft: "3", BottomRight: "4", LeftBodyRule: "l", RightBodyRule: "r",
+		HTopDown: "t", BTopDown: "T", BBottomUp: "u", HBCross: "c", HBLeft: "[", HBRight: "]",
 	}
-	v := reflect.ValueOf(d)
-	n := 0
-	for i := 0; i < v.NumField(); i++ {
-		f := v.Type().Field(i)
-		if f.PkgPath != "" || f.Type.Kind() != reflect.String {
-			continue
-		}
-		n++
-		if v.Field(i).String() == "" {
-			return false
-		}
-	}
-	return n > 0
 }
 
 func goodTable() tabular.Table {
@@ -101,16 +91,27 @@ func paletteInit() {
 			customDecoration("=", "!", "#"),
 			customDecoration("~", ":", "*"),
 			customDecoration("_", "I", "o"),
+			// not the zero value, so not EmptyDecoration - whichever fields are set:
+			explicitDecoration(),                               // 10: render fields only, no Populate
+			{Horizontal: "h", Vertical: "v"},                   // 11: only the two templates, nothing the renderer draws
+			{HOuter: "-"},                                      // 12: one single field
+			{VBodyInner: "/", VHeader: "\\", VBodyBorder: "!"}, // 13: verticals only
 		}
 		outToID = map[string]int{}
 		for i, d := range regPalette {
-			regUsable = append(regUsable, i != 0 && decUsable(d))
 			if i == 0 {
+				regUsable = append(regUsable, false)
 				continue
 			}
+			// usable = anything but the zero value: the text renderer draws empty glyphs for
+			// empty fields and refuses only EmptyDecoration.  (The flag is NOT taken from a
+			// trial rendering: a library that wrongly refuses one of these must disagree with
+			// the model, not adjust it.)  The direct rendering (SetDecoration, no registry)
+			// only names the output.
+			regUsable = append(regUsable, true)
 			out, err := texttable.Wrap(goodTable()).SetDecoration(d).Render()
-			if err != nil || out == "" {
-				panic(fmt.Sprintf("palette decoration %d does not render the good table: %v", i, err))
+			if err != nil {
+				continue
 			}
 			if _, dup := outToID[out]; dup {
 				panic(fmt.Sprintf("palette decoration %d renders like another one", i))
